@@ -60,7 +60,7 @@ V_HARNESS(h_vps_debounce)
 {
   uint8_t L[2][13], buf[13]; unsigned t, sel[KREC], cni[KREC]; unsigned nuid_model = 0, e = 0, chsw_model = 0;
   V_INIT();
-  memset(&VBI, 0, sizeof VBI);
+  /* VBI is a static object: zero initialised (a memset of the whole decoder costs minutes of symex) */
   VBI.event_mask = VBI_EVENT_NETWORK | VBI_EVENT_NETWORK_ID | VBI_EVENT_PROG_ID;
   in_bytes(L[0], 13); in_bytes(L[1], 13);
   V_ASSUME(ref_vps_cni(L[0]) != 0 && ref_vps_cni(L[1]) != 0);     /* CNI 0 = "no identifier" is the decoder's initial value */
@@ -105,7 +105,7 @@ V_HARNESS(h_wss_debounce)
   struct { int fl, ll, film, subt, ana; } cur = { 0, 0, 0, 0, 0 };
   static const int FL[8] = { 23, 41, 23, 59, 23, 59, 23, 23 }, LL[8] = { 310, 292, 274, 273, 237, 273, 310, 310 };
   V_INIT();
-  memset(&VBI, 0, sizeof VBI);
+  /* VBI is a static object: zero initialised (a memset of the whole decoder costs minutes of symex) */
   VBI.event_mask = VBI_EVENT_ASPECT | VBI_EVENT_PROG_INFO;
   in_bytes(W[0], 2); in_bytes(W[1], 2);
   V_ASSUME(!(W[0][0] == 0 && W[0][1] == 0) && !(W[1][0] == 0 && W[1][1] == 0));   /* 00 00 is the decoder's initial "last word" */
@@ -161,7 +161,7 @@ V_HARNESS(h_8301_debounce)
   unsigned C[2], t, sel[KREC], cni[KREC], d, nuid_model = 0, chsw_model = 0; uint8_t pkt[42];
   unsigned mjd[5], hms[6], lto; long long exp_time; int exp_se;
   V_INIT();
-  memset(&VBI, 0, sizeof VBI); VBI.cn = &CN13;
+  VBI.cn = &CN13;                    /* VBI static: zero initialised */
   VBI.event_mask = VBI_EVENT_NETWORK | VBI_EVENT_NETWORK_ID | VBI_EVENT_LOCAL_TIME;
   C[0] = in_u16(); C[1] = in_u16(); V_ASSUME(C[0] != 0 && C[1] != 0);
   for (d = 0; d < 5; d++) { mjd[d] = in_u8() & 15; V_ASSUME(mjd[d] <= 9); }
